@@ -209,6 +209,7 @@ func (m *Model) Expect() *Expected {
 				im["tags"] = addTagUse(tg, g.Path, "http", id)
 				// path variables
 				var children []J
+				pvUsed := map[string]bool{}
 				pre := ""
 				for _, s := range strings.Split(strings.Trim(g.Path, "/"), "/") {
 					if pre == "" {
@@ -221,6 +222,9 @@ func (m *Model) Expect() *Expected {
 						if d, ok := defs[pre]; ok {
 							k := name
 							children = append(children, d.V.Image(env, &k, false))
+							for _, u := range d.V.UsedTypes(env) {
+								pvUsed[u] = true
+							}
 						} else {
 							children = append(children, map[string]J{"key": name, "tokenType": "string", "type": "any", "scalarValue": "", "optional": false,
 								"rules": []J{map[string]J{"key": "type", "tokenType": "string", "scalarValue": "any"}}})
@@ -228,8 +232,17 @@ func (m *Model) Expect() *Expected {
 					}
 				}
 				if len(children) > 0 {
-					im["pathVariables"] = map[string]J{"schema": map[string]J{"notation": "jsight",
-						"content": map[string]J{"tokenType": "object", "type": "object", "optional": false, "children": children}}}
+					pv := map[string]J{"notation": "jsight",
+						"content": map[string]J{"tokenType": "object", "type": "object", "optional": false, "children": children}}
+					if len(pvUsed) > 0 {
+						var u []string
+						for k := range pvUsed {
+							u = append(u, k)
+						}
+						sort.Strings(u)
+						pv["usedUserTypes"] = SetJ{u}
+					}
+					im["pathVariables"] = map[string]J{"schema": pv}
 				}
 				if q := me.Query; q != nil {
 					qm := map[string]J{"format": "htmlFormEncoded", "schema": jsightSchema(q.Schema, env)}
